@@ -13,9 +13,10 @@ from .values import (ALL_KINDS, ANY_VALUE_KINDS, KINDS, META_KINDS, NODE_KINDS, 
 _PY_BUILTINS = {"isinstance", "len", "str", "int", "float", "bool", "list", "tuple", "dict", "set", "frozenset",
                 "enumerate", "reversed", "range", "zip", "sorted", "any", "all", "type", "getattr", "hasattr",
                 "repr", "print", "id", "hash", "min", "max", "sum", "iter", "next", "callable", "super", "open",
-                "map", "filter", "abs", "format", "object", "bytes", "NotImplemented"}
+                "map", "filter", "abs", "format", "object", "bytes", "NotImplemented", "issubclass"}
 _EXC_NAMES = {"TypeError", "ValueError", "RuntimeError", "KeyError", "IndexError", "Exception", "NotImplementedError",
-              "ImportError", "AttributeError", "StopIteration", "OSError", "FileNotFoundError", "AssertionError"}
+              "ImportError", "AttributeError", "StopIteration", "OSError", "FileNotFoundError", "AssertionError", "BaseException",
+              "GeneratorExit", "KeyboardInterrupt", "SystemExit", "LookupError", "ArithmeticError"}
 
 
 class Frame:
@@ -1024,6 +1025,9 @@ class Evaluator(CallMixin, StmtMixin):
                     return False
                 if isinstance(a, SBool):
                     t = self.run.decide(a.atom)
+                    if b is None and isinstance(a.atom, tuple) and a.atom[:1] == ("extcall",) and len(a.atom) > 1 \
+                            and a.atom[1] in ("re.search", "re.match", "re.fullmatch"):
+                        return not t        # the value is a match object or None: `m is None` means "no match"
                     return t is b
                 if isinstance(a, (SNew, SStr, SList, SDict, SFunc, SClass, SInt)):
                     return False
@@ -1140,7 +1144,8 @@ class Evaluator(CallMixin, StmtMixin):
                     r = self.run.path.choose(("in", item.uid, tuple(sorted(fs))), 2, ("in " + _setname(fs), "not in " + _setname(fs))) == 0
                     item.in_sets[fs] = r
                     return r
-                # general: any(item == x)
+                # general: any(item == x) - for an object of a user-defined class this runs its __eq__
+                self.run.effect("eqcmp", item, None, list(elems), node)
                 for x in elems:
                     if isinstance(x, Sym):
                         if self.run.truth(self.equal(item, x, node)) or self.identical_safe(item, x, node):
@@ -1166,6 +1171,8 @@ class Evaluator(CallMixin, StmtMixin):
             return self.run.decide(("in", _K(item), tuple(map(repr, elems))))
         if isinstance(container, str) or isinstance(container, SStr):
             return self.run.decide(("substr", _K(item), _K(container)))
+        if isinstance(container, SNew) and isinstance(container.cls, ClassInfo) and self.prog.is_subclass(container.cls, "UserString"):
+            return self.run.decide(("substr", _K(item), _K(container)))      # UserString.__contains__: substring of .data
         if isinstance(container, (SDict, SList, SObj, SOpaque)):
             key = _K(item) if isinstance(item, Sym) else item
             if isinstance(container, SDict) and container.concrete and not container.dstar and not isinstance(item, Sym):
@@ -1446,6 +1453,35 @@ class Evaluator(CallMixin, StmtMixin):
                     l = SList("view", base=coll, kinds=kinds)
                     l.pytype = pytype
                     return l
+            # which element kinds can pass the filter (decided per kind where the conditions only test the kind)
+            pass_kinds = None
+            if g.ifs and coll is not None and isinstance(g.target, ast.Name):
+                from .interp import NeedsDecision as _ND
+                pass_kinds = set()
+                saved_t = self.frame.env.get(g.target.id, _NOVAL)
+                self.run.path.frozen = True
+                try:
+                    for k in sorted(base_kinds):
+                        self.frame.env[g.target.id] = SObj("probe", {k}, origin=_origin(coll))
+                        try:
+                            ok_k = True
+                            for c in g.ifs:
+                                v_ = self.eval(c)
+                                if isinstance(v_, Sym) and not isinstance(v_, SStr):
+                                    raise _ND(None)
+                                if not v_:
+                                    ok_k = False
+                                    break
+                        except (_ND, Unmodelled):
+                            ok_k = True      # value-dependent: elements of this kind may pass
+                        if ok_k:
+                            pass_kinds.add(k)
+                finally:
+                    self.run.path.frozen = False
+                    if saved_t is _NOVAL:
+                        self.frame.env.pop(g.target.id, None)
+                    else:
+                        self.frame.env[g.target.id] = saved_t
             var = self.generic_element(it, g.target, e)
             self.run.__dict__["last_generic_var"] = var
             self.bind_target(g.target, var, e)
@@ -1477,6 +1513,7 @@ class Evaluator(CallMixin, StmtMixin):
                 l.__dict__["target_node"] = g.target
                 l.__dict__["frame_env"] = self.frame.env
                 l.__dict__["identity"] = is_identity
+                l.__dict__["pass_kinds"] = pass_kinds
                 return l
             var = self.generic_element(it, g.target, e)
             self.bind_target(g.target, var, e)
